@@ -34,8 +34,9 @@ VARIABLES shape, pre, off,      \* the case
           wlog,                 \* ground truth: target position of every symbol written (+ the end)
           rng,                  \* the parser.Range returned by RangeWriter.write for the expression
           s2t, t2s,             \* SourceMap.SourceLinesToTarget / TargetLinesToSource
-          sym                   \* symbol range recorded for the enclosing declaration
-vars == <<shape, pre, off, phase, cur, wlog, rng, s2t, t2s, sym>>
+          sym,                  \* symbol range recorded for the enclosing declaration
+          symtab, second        \* SourceSymbolRangeToTarget; the second declaration (if any): [line, col, from, to]
+vars == <<shape, pre, off, phase, cur, wlog, rng, s2t, t2s, sym, symtab, second>>
 
 -----------------------------------------------------------------------------
 (* the cases *)
@@ -58,6 +59,7 @@ Init == /\ shape \in Shapes /\ pre \in Pres /\ off \in Offsets
         /\ wlog = <<>> /\ rng = [from |-> Pos(0, 0, 0), to |-> Pos(0, 0, 0)]
         /\ s2t = Empty /\ t2s = Empty
         /\ sym = [set |-> FALSE, from |-> Pos(0, 0, 0), to |-> Pos(0, 0, 0)]
+        /\ symtab = Empty /\ second = [set |-> FALSE]
 
 \* r, err = g.w.Write(expression.Value)
 Write == /\ phase = "init"
@@ -66,7 +68,7 @@ Write == /\ phase = "init"
             /\ wlog' = Append(w.log, w.cur)
             /\ rng' = [from |-> cur, to |-> w.cur]
          /\ phase' = "written"
-         /\ UNCHANGED <<shape, pre, off, s2t, t2s, sym>>
+         /\ UNCHANGED <<shape, pre, off, s2t, t2s, sym, symtab, second>>
 
 \* g.sourceMap.Add(expression, r)
 Add == /\ phase = "written"
@@ -74,22 +76,36 @@ Add == /\ phase = "written"
           /\ s2t' = st.s2t
           /\ t2s' = st.t2s
        /\ phase' = "added"
-       /\ UNCHANGED <<shape, pre, off, cur, wlog, rng, sym>>
+       /\ UNCHANGED <<shape, pre, off, cur, wlog, rng, sym, symtab, second>>
 
 \* the rest of the declaration is written, then AddSymbolRange(n.Range, tgtSymbolRange)
 CloseDecl == /\ phase = "added"
              /\ LET w == WriteAll(cur, Trailer, <<>>) IN
                 /\ cur' = w.cur
                 /\ sym' = [set |-> TRUE, from |-> TgtLineStart, to |-> w.cur]
+                /\ symtab' = AddSym(symtab, SrcLineStart.line, SrcLineStart.col, [from |-> TgtLineStart, to |-> w.cur])
              /\ phase' = "closed"
-             /\ UNCHANGED <<shape, pre, off, wlog, rng, s2t, t2s>>
+             /\ UNCHANGED <<shape, pre, off, wlog, rng, s2t, t2s, second>>
 
-Next == Write \/ Add \/ CloseDecl
+\* a second top-level declaration, starting on the same templ line as the first (after its closing
+\* brace: `templ a() { ... } templ b() { ... }`) or on a later line
+SecondDecl(sameLine) ==
+    /\ phase = "closed"
+    /\ LET w == WriteAll(cur, <<1, 1, 1>> \o Trailer, <<>>)
+           l == IF sameLine THEN SrcLineStart.line ELSE SrcLineStart.line + Len(shape) + 1
+           c == IF sameLine THEN SrcLineStart.col + 40 ELSE 0
+       IN  /\ cur' = w.cur
+           /\ second' = [set |-> TRUE, line |-> l, col |-> c, from |-> cur, to |-> w.cur]
+           /\ symtab' = AddSym(symtab, l, c, [from |-> cur, to |-> w.cur])
+    /\ phase' = "closed2"
+    /\ UNCHANGED <<shape, pre, off, wlog, rng, s2t, t2s, sym>>
+
+Next == Write \/ Add \/ CloseDecl \/ \E b \in BOOLEAN : SecondDecl(b)
 Spec == Init /\ [][Next]_vars
 
 -----------------------------------------------------------------------------
 (* properties *)
-Mapped == phase \in {"added", "closed"}
+Mapped == phase \in {"added", "closed", "closed2"}
 IsRune(k) == k <= NSym /\ ~IsNL(Flat[k])
 IsEol(k) == k = NSym + 1 \/ (k <= NSym /\ IsNL(Flat[k]))
 T(k) == TargetFromSource(s2t, SrcPos(k).line, SrcPos(k).col)
@@ -120,6 +136,12 @@ SymbolRangeEncloses == sym.set => /\ sym.from.idx <= rng.from.idx /\ rng.to.idx 
                                   /\ \A k \in 1..(NSym + 1) : sym.from.idx <= wlog[k].idx /\ wlog[k].idx <= sym.to.idx
                                   /\ sym.to = AdvanceAll(sym.from, [i \in 1..off |-> 1] \o Flat \o Trailer)
 
-TypeOK == /\ phase \in {"init", "written", "added", "closed"}
+\* every top-level declaration keeps its symbol range, also when two start on one templ line
+SymbolsFound == /\ (sym.set => /\ SymFound(symtab, SrcLineStart.line, SrcLineStart.col)
+                                /\ symtab[<<SrcLineStart.line, SrcLineStart.col>>] = [from |-> sym.from, to |-> sym.to])
+                /\ (second.set => /\ SymFound(symtab, second.line, second.col)
+                                   /\ symtab[<<second.line, second.col>>] = [from |-> second.from, to |-> second.to])
+
+TypeOK == /\ phase \in {"init", "written", "added", "closed", "closed2"}
           /\ cur.idx >= 0 /\ cur.col >= 0
 =============================================================================
